@@ -37,44 +37,44 @@ def dynRoutes (R : List Route) (m : Bytes) : List Route :=
   R.filter fun r => r.method = m ∧ ¬ isStaticPat r.pat
 
 /-- a parameter-free route of the method matches the path outright -/
-def staticHit (R : List Route) (m : Bytes) (segs : List Bytes) : Bool :=
-  R.any fun r => r.method = m ∧ isStaticPat r.pat ∧ (matchPat r.pat segs).isSome
+def staticHit (R : List Route) (m : Bytes) (p : RPath) : Bool :=
+  R.any fun r => r.method = m ∧ isStaticPat r.pat ∧ (matchPat p.trail r.pat p.segs).isSome
 
 /-- members of `dynRoutes` whose pattern matches, constraints ignored -/
-def shapeCands (R : List Route) (m : Bytes) (segs : List Bytes) : List Route :=
-  (dynRoutes R m).filter fun r => (matchPat r.pat segs).isSome
+def shapeCands (R : List Route) (m : Bytes) (p : RPath) : List Route :=
+  (dynRoutes R m).filter fun r => (matchPat p.trail r.pat p.segs).isSome
 
 /-- the best pattern match when constraints are ignored (last registered among equals) -/
-def rho (R : List Route) (m : Bytes) (segs : List Bytes) : Option Route :=
-  pick none (shapeCands R m segs)
+def rho (R : List Route) (m : Bytes) (p : RPath) : Option Route :=
+  pick none (shapeCands R m p)
 
 /-- K01b: a route sharing `ρ`'s prefix offers, at some position, a compatible segment of strictly
 higher priority — a descent that never backtracks leaves `ρ`'s branch there -/
-def dShadow1 (R : List Route) (m : Bytes) (segs : List Bytes) : Bool :=
-  !staticHit R m segs &&
-  match rho R m segs with
+def dShadow1 (R : List Route) (m : Bytes) (p : RPath) : Bool :=
+  !staticHit R m p &&
+  match rho R m p with
   | none => false
   | some ρ =>
     (dynRoutes R m).any fun r' =>
       (List.range ρ.pat.length).any fun i =>
         prefixAgree i r'.pat ρ.pat &&
-        match r'.pat[i]?, ρ.pat[i]?, segs[i]? with
+        match r'.pat[i]?, ρ.pat[i]?, p.segs[i]? with
         | some a, some b, some x => compat a x && kind b < kind a
         | _, _, _ => false
 
 /-- constraints are only checked at the one leaf a descent reaches: `ρ` fails its own constraints
 while another pattern match passes its own -/
-def dCfall1 (sat : Nat → Bytes → Bool) (R : List Route) (m : Bytes) (segs : List Bytes) : Bool :=
-  !staticHit R m segs &&
-  match rho R m segs with
+def dCfall1 (sat : Nat → Bytes → Bool) (R : List Route) (m : Bytes) (p : RPath) : Bool :=
+  !staticHit R m p &&
+  match rho R m p with
   | none => false
-  | some ρ => (routeMatch sat ρ segs).isNone && (shapeCands R m segs).any fun r => (routeMatch sat r segs).isSome
+  | some ρ => (routeMatch sat ρ p).isNone && (shapeCands R m p).any fun r => (routeMatch sat r p).isSome
 
 /-- K01a: another route reaches one of `ρ`'s parameter positions through the same prefix but calls the
 parameter differently (one shared child per node, one name) -/
-def dNames1 (R : List Route) (m : Bytes) (segs : List Bytes) : Bool :=
-  !staticHit R m segs &&
-  match rho R m segs with
+def dNames1 (R : List Route) (m : Bytes) (p : RPath) : Bool :=
+  !staticHit R m p &&
+  match rho R m p with
   | none => false
   | some ρ =>
     (dynRoutes R m).any fun r1 =>
@@ -86,26 +86,26 @@ def dNames1 (R : List Route) (m : Bytes) (segs : List Bytes) : Bool :=
 
 /-- K01c: another route has exactly `ρ`'s shape but not its pattern or not its constraints (one leaf
 per shape: registrations overwrite each other) -/
-def dOverwrite1 (R : List Route) (m : Bytes) (segs : List Bytes) : Bool :=
-  !staticHit R m segs &&
-  match rho R m segs with
+def dOverwrite1 (R : List Route) (m : Bytes) (p : RPath) : Bool :=
+  !staticHit R m p &&
+  match rho R m p with
   | none => false
   | some ρ => (dynRoutes R m).any fun r1 => shapeEq r1.pat ρ.pat && (r1.pat ≠ ρ.pat || r1.cons ≠ ρ.cons)
 
 /-- the outcome of a request depends on its own method tree and, for 404/405, on all seven -/
 def methodsOf (req : Req) : List Bytes := req.method :: stdMethods
 
-def dShadow (R : List Route) (req : Req) (segs : List Bytes) : Bool := (methodsOf req).any fun m => dShadow1 R m segs
-def dCfall (sat : Nat → Bytes → Bool) (R : List Route) (req : Req) (segs : List Bytes) : Bool := (methodsOf req).any fun m => dCfall1 sat R m segs
-def dNames (R : List Route) (req : Req) (segs : List Bytes) : Bool := (methodsOf req).any fun m => dNames1 R m segs
-def dOverwrite (R : List Route) (req : Req) (segs : List Bytes) : Bool := (methodsOf req).any fun m => dOverwrite1 R m segs
+def dShadow (R : List Route) (req : Req) (p : RPath) : Bool := (methodsOf req).any fun m => dShadow1 R m p
+def dCfall (sat : Nat → Bytes → Bool) (R : List Route) (req : Req) (p : RPath) : Bool := (methodsOf req).any fun m => dCfall1 sat R m p
+def dNames (R : List Route) (req : Req) (p : RPath) : Bool := (methodsOf req).any fun m => dNames1 R m p
+def dOverwrite (R : List Route) (req : Req) (p : RPath) : Bool := (methodsOf req).any fun m => dOverwrite1 R m p
 
 /-- the class token the driver prints (first that applies, most specific first) -/
-def classify (sat : Nat → Bytes → Bool) (R : List Route) (req : Req) (segs : List Bytes) : String :=
-  if dOverwrite R req segs then "overwrite"
-  else if dNames R req segs then "names"
-  else if dShadow R req segs then "shadow"
-  else if dCfall sat R req segs then "cfall"
+def classify (sat : Nat → Bytes → Bool) (R : List Route) (req : Req) (p : RPath) : String :=
+  if dOverwrite R req p then "overwrite"
+  else if dNames R req p then "names"
+  else if dShadow R req p then "shadow"
+  else if dCfall sat R req p then "cfall"
   else "-"
 
 /-- the domain of the equality: every pattern is in the property's vocabulary (`pat` is the parse of
